@@ -12,6 +12,8 @@ This interprets branch conditions only; no statement of the analysed program is 
 """
 from collections import deque
 
+import re
+
 import q
 from mir import Agg, Bin, Call, Cast, Const, Deref, Discr, Field, Named, Ref, Un, Var
 
@@ -349,3 +351,84 @@ def walk(body, start, env, roles=None, stop=(), max_steps=400):
         else:
             return events, ("undecided", b)
     return events, ("limit", b)
+
+
+# ------------------------------------------------------------------------------------------------
+# symbolic execution of an acyclic region
+def sym_paths(body, start, stmt_from, end, store0, max_paths=64, avoid=()):
+    """Enumerate the acyclic paths from (start block, first statement index) to block `end` and
+    carry a symbolic store along each of them: {local: canonical shape string in terms of the
+    symbols of store0}. Every assignment and call is processed in program order and every operand is
+    printed through the store only (no expansion of temporaries by their definitions), so a value
+    is what it was when it was computed, however the variable is changed afterwards - in-place
+    updates (`x >>= 1; if s { x = -x }`), fresh bindings (`let m = x >> 1;`) and values passed
+    through an inlined helper give the same result strings.
+    Returns a list of {"conds": [(shape, taken value | ("not", values))], "store": {...}, "blocks": [...]}
+    for every path that reaches `end` (its statements executed, its terminator not), or None when there are too many paths."""
+    out = []
+    avoid = set(avoid)
+
+    def sh(e, store):
+        return q.shape(e, store)
+
+    def run_block(b, i0, store):
+        blk = body.blocks[b]
+        for si in range(i0, len(blk["stmts"])):
+            s = blk["stmts"][si]
+            if s["k"] != "assign":
+                continue
+            pl = s["place"]
+            rv = s["rv"]
+            val = None
+            if rv["k"] == "use" and rv["op"].get("k") in ("copy", "move"):
+                src = rv["op"]["place"]
+                if len(src["p"]) == 1 and src["p"][0].get("k") == "field" and src["p"][0].get("i") == 0:
+                    base = store.get(src["l"])
+                    if base and re.match(r"^[A-Za-z]+WithOverflow\(", base):
+                        val = base.replace("WithOverflow", "", 1)  # the value half of a checked operation
+            if val is None:
+                val = sh(body.expr_of_rvalue(rv, depth=0), store)
+            if not pl["p"]:
+                store[pl["l"]] = val
+            else:
+                # a store into a part of a local: its whole value is no longer known symbolically
+                store.pop(pl["l"], None) if pl["p"][0]["k"] != "deref" else None
+
+    def rec(b, i0, store, conds, visited):
+        if len(out) > max_paths:
+            return
+        if b == end and i0 == 0:
+            st = dict(store)
+            run_block(b, 0, st)  # the statements of the end block (argument temporaries of its terminator)
+            out.append({"conds": list(conds), "store": st, "blocks": list(visited)})
+            return
+        if b in visited or b in avoid:
+            return
+        visited = visited + [b]
+        store = dict(store)
+        run_block(b, i0, store)
+        t = body.blocks[b]["term"]
+        k = t["k"]
+        if k == "goto":
+            rec(t["t"], 0, store, conds, visited)
+        elif k == "switch":
+            d = sh(body.expr_of_operand(t["discr"], depth=0), store)
+            listed = []
+            for val, tb in t["arms"]:
+                listed.append(val)
+                rec(tb, 0, store, conds + [(d, val)], visited)
+            rec(t["otherwise"], 0, store, conds + [(d, ("not", tuple(listed)))], visited)
+        elif k == "call":
+            if not t["dest"]["p"]:
+                store[t["dest"]["l"]] = sh(body.expr_of_call(t, depth=0), store)
+            if "t" in t:
+                rec(t["t"], 0, store, conds, visited)
+        elif k in ("assert", "drop"):
+            if "t" in t:
+                rec(t["t"], 0, store, conds, visited)
+        # return / unreachable / resume: the path does not reach `end`
+
+    rec(start, stmt_from, dict(store0), [], [])
+    if len(out) > max_paths:
+        return None
+    return out
